@@ -1038,6 +1038,9 @@ def c10_programs(backend):
                      f"(j.{mname}() if j.pt() > 1.5 else 0.5)", f"j.{mname}() + 1"):
             prog(f"Select(EventDataset('ds'), lambda e: e.PRIM('A').Select(lambda j: {expr}))", [(E, ms)], tags=("tree_type_arith", mname))
         prog(f"Select(EventDataset('ds'), lambda e: e.PRIM('A').Select(lambda j: j.{mname}() * 0.5).Sum())", [(E, ms)], tags=("tree_type_arith", mname))
+        # ... nor to an accumulator that is merely SEEDED with such a value
+        prog(f"Select(EventDataset('ds'), lambda e: e.PRIM('A').Select(lambda j: j.fvals().Aggregate(j.{mname}(), lambda a, v: a + v)))",
+             [(E, ms), (E, MethodSpec("fvals", TColl("std::vector<float>", TNum("float"), 0)))], tags=("tree_type_arith", mname, "seed"))
     # enums: argument, comparison
     en = {"xAOD.Jet.Color": ("xAOD.Jet", ["Red", "Blue"])}
     prog("Select(EventDataset('ds'), lambda e: e.PRIM('A').Where(lambda j: j.color() == xAOD.Jet.Color.Red).Count())", [(E, MethodSpec("color", TNum("int")))], enums=en, tags=("enum", "compare"))
